@@ -73,6 +73,10 @@ pub open spec fn planned_path(q: PathV, dst: PathV, sm: Map<PathBuf, FileMeta>, 
     log_extends(final(w).log, old(w).log),
     // C15: a dry run changes nothing at all
     opts.dry_run ==> final(w).files == old(w).files && final(w).log == old(w).log,
+    // C04 / C19, --delete is carried out: after a successful real run (no I/O fault) no path the plan deletes is left - the
+    // plan being the property's set definition over BOTH listings as they were scanned
+    (res is Ok && io_ok() && opts.delete && !opts.dry_run) ==> forall|p: PathBuf| want_delete(scan_or_empty(*old(w), pv(src)), scan_or_empty(*old(w), pv(dst)), opts.excludes@, p)
+        ==> !final(w).files.contains_key(joinv(pv(dst), #[trigger] pbv(&p))),
     // C04 / C09: every effect of the run is a directory creation, a delivery effect of a path the plan sends, or - only with
     // --delete - the unlink of a path the plan deletes; the plan being the property's own set definition over the two scans
     forall|i: int| old(w).log.len() <= i < final(w).log.len() ==> planned_eff(#[trigger] final(w).log[i], pv(dst),
@@ -95,6 +99,11 @@ pub open spec fn planned_path(q: PathV, dst: PathV, sm: Map<PathBuf, FileMeta>, 
     let ghost w0 = *w;
     let ghost sm = scan_or_empty(w0, pv(src)); let ghost dm = scan_or_empty(w0, pv(dst));
     let ghost ex = opts.excludes@; let ghost dv = pv(dst);
+//@at? before /if plan\.transfer\.is_empty\(\) && plan\.delete\.is_empty\(\)/
+    proof {
+        assert(src_meta@ == sm && dst_meta@ == dm);
+        if opts.delete && plan.delete@.len() == 0 { assert forall|p: PathBuf| !want_delete(sm, dm, ex, p) by { if want_delete(sm, dm, ex, p) { assert(plan.delete@.contains(p)); } } }
+    }
 //@at? before /create_local_dirs\(/
     proof {
         assert(src_meta@ == sm && dst_meta@ == dm);
@@ -126,6 +135,7 @@ pub open spec fn planned_path(q: PathV, dst: PathV, sm: Map<PathBuf, FileMeta>, 
             dv == pv(dst), opts.delete, plan.delete@.len() > 0,
             forall|p: PathBuf| plan.delete@.contains(p) <==> want_delete(sm, dm, ex, p),
             log_extends(w.log, w2.log),
+            io_ok() ==> forall|j: int| 0 <= j < it.index() ==> !w.files.contains_key(joinv(dv, pbv(#[trigger] &plan.delete@[j]))),
             forall|i: int| w2.log.len() <= i < w.log.len() ==> some_planned_del(#[trigger] w.log[i], dv, sm, dm, ex),
             forall|q: PathV| (forall|p: PathBuf| !(want_delete(sm, dm, ex, p) && q == joinv(dv, pbv(&p)))) ==>
                 (#[trigger] w.files.dom().contains(q)) == w2.files.dom().contains(q) && (w.files.dom().contains(q) ==> w.files[q] == w2.files[q]),
@@ -138,12 +148,26 @@ pub open spec fn planned_path(q: PathV, dst: PathV, sm: Map<PathBuf, FileMeta>, 
                 let p = plan.delete@[it.index() as int];
                 assert(w.log == wl.log || w.log == wl.log.push(Eff::Unlink(joinv(dv, pbv(rel)))));
                 assert(w.files == wl.files || w.files == wl.files.remove(joinv(dv, pbv(rel))));
+                if io_ok() {
+                    let i0 = it.index() as int;
+                    assert(!w.files.contains_key(joinv(dv, pbv(rel))));
+                    assert forall|j: int| 0 <= j < i0 + 1 implies !w.files.contains_key(joinv(dv, pbv(#[trigger] &plan.delete@[j]))) by {
+                        if j < i0 { assert(!wl.files.contains_key(joinv(dv, pbv(&plan.delete@[j])))); }
+                    }
+                }
                 assert forall|i: int| w2.log.len() <= i < w.log.len() implies some_planned_del(#[trigger] w.log[i], dv, sm, dm, ex) by {
                     if i >= wl.log.len() { assert(planned_del(w.log[i], dv, sm, dm, ex, p)); } else { assert(w.log[i] == wl.log[i]); }
                 }
             }
 //@at end
     proof {
+        if io_ok() && opts.delete {
+            assert forall|p: PathBuf| want_delete(sm, dm, ex, p) implies !w.files.contains_key(joinv(dv, #[trigger] pbv(&p))) by {
+                assert(plan.delete@.contains(p));
+                let j = choose|j: int| 0 <= j < plan.delete@.len() && plan.delete@[j] == p;
+                assert(!w.files.contains_key(joinv(dv, pbv(&plan.delete@[j]))));
+            }
+        }
         assert forall|i: int| w0.log.len() <= i < w.log.len() implies planned_eff(#[trigger] w.log[i], dv, sm, dm, ex, opts.delete) by {
             if i < w2.log.len() { assert(w.log[i] == w2.log[i]); }
         }
@@ -199,6 +223,10 @@ pub open spec fn planned_cmd(c: RemoteCmd, host: Seq<char>, root: Seq<char>, sm:
     (c is Mkdir && c->Mkdir_host == host) || (exists|p: PathBuf| planned_rsend(c, host, root, sm, dm, ex, p))
     || (del && c is Rm && c->Rm_host == host && exists|ps: Seq<PathBuf>| all_planned_dels(c->Rm_paths, root, sm, dm, ex, ps))
 }
+// the removal command of a plan: ONE Rm whose arguments are <root>/p for exactly the paths p the plan deletes
+pub open spec fn rm_of_plan(c: RemoteCmd, host: Seq<char>, root: Seq<char>, sm: Map<PathBuf, FileMeta>, dm: Map<PathBuf, FileMeta>, ex: Seq<String>) -> bool {
+    exists|ps: Seq<PathBuf>| c == (RemoteCmd::Rm { host, paths: #[trigger] entries(root, ps) }) && forall|p: PathBuf| ps.contains(p) <==> want_delete(sm, dm, ex, p)
+}
 pub open spec fn src_scan(dir: Dir, w: World, host: Seq<char>, root: Seq<char>, local: PathV) -> Map<PathBuf, FileMeta> { if dir is Push { scan_or_empty(w, local) } else { rscan_or_empty(host, root) } }
 pub open spec fn dst_scan(dir: Dir, w: World, host: Seq<char>, root: Seq<char>, local: PathV) -> Map<PathBuf, FileMeta> { if dir is Push { rscan_or_empty(host, root) } else { scan_or_empty(w, local) } }
 
@@ -225,6 +253,13 @@ pub open spec fn dst_scan(dir: Dir, w: World, host: Seq<char>, root: Seq<char>, 
         src_scan(dir, *old(w), host@, remote_root@, pv(local_root)), dst_scan(dir, *old(w), host@, remote_root@, pv(local_root)), opts.excludes@, opts.delete),
     forall|i: int| old(rl).cmds.len() <= i < final(rl).cmds.len() ==> planned_cmd(#[trigger] final(rl).cmds[i], host@, remote_root@,
         src_scan(dir, *old(w), host@, remote_root@, pv(local_root)), dst_scan(dir, *old(w), host@, remote_root@, pv(local_root)), opts.excludes@, opts.delete),
+    // C04 / C19, --delete is carried out. pull: after a successful real run (no I/O fault) no local path the plan deletes is left;
+    // push: if the plan deletes anything, the run has sent the ONE removal command, for exactly the plan's delete set
+    (res is Ok && io_ok() && opts.delete && !opts.dry_run && dir is Pull) ==> forall|p: PathBuf| want_delete(src_scan(dir, *old(w), host@, remote_root@, pv(local_root)),
+        dst_scan(dir, *old(w), host@, remote_root@, pv(local_root)), opts.excludes@, p) ==> !final(w).files.contains_key(joinv(pv(local_root), #[trigger] pbv(&p))),
+    (res is Ok && opts.delete && !opts.dry_run && dir is Push && exists|p: PathBuf| want_delete(src_scan(dir, *old(w), host@, remote_root@, pv(local_root)),
+        dst_scan(dir, *old(w), host@, remote_root@, pv(local_root)), opts.excludes@, p)) ==> exists|i: int| old(rl).cmds.len() <= i < final(rl).cmds.len() && rm_of_plan(#[trigger] final(rl).cmds[i], host@, remote_root@,
+            src_scan(dir, *old(w), host@, remote_root@, pv(local_root)), dst_scan(dir, *old(w), host@, remote_root@, pv(local_root)), opts.excludes@),
     // C15: without --delete nothing is removed, here or there
     !opts.delete ==> (forall|i: int| old(w).log.len() <= i < final(w).log.len() ==> !((#[trigger] final(w).log[i]) is Unlink))
         && (forall|i: int| old(rl).cmds.len() <= i < final(rl).cmds.len() ==> !((#[trigger] final(rl).cmds[i]) is Rm)),
@@ -243,6 +278,11 @@ pub open spec fn dst_scan(dir: Dir, w: World, host: Seq<char>, root: Seq<char>, 
     let ghost sm = src_scan(dir, w0, host@, remote_root@, pv(local_root)); let ghost dm = dst_scan(dir, w0, host@, remote_root@, pv(local_root));
     let ghost ex = opts.excludes@; let ghost lv = pv(local_root);
     let ghost hv = host@; let ghost rv = remote_root@;
+//@at? before /if plan\.transfer\.is_empty\(\) && plan\.delete\.is_empty\(\)/
+    proof {
+        assert(src_meta@ == sm && dst_meta@ == dm);
+        if opts.delete && plan.delete@.len() == 0 { assert forall|p: PathBuf| !want_delete(sm, dm, ex, p) by { if want_delete(sm, dm, ex, p) { assert(plan.delete@.contains(p)); } } }
+    }
 //@at? before /let dirs = collect_dirs\(/
     proof {
         assert(src_meta@ == sm && dst_meta@ == dm);
@@ -286,6 +326,20 @@ pub open spec fn dst_scan(dir: Dir, w: World, host: Seq<char>, root: Seq<char>, 
                 let p = plan.delete@[j]; assert(plan.delete@.contains(p));
                 assert(planned_del(w.log[i], lv, sm, dm, ex, p));
             }
+        }
+        if io_ok() && opts.delete && dir is Pull {
+            assert forall|p: PathBuf| want_delete(sm, dm, ex, p) implies !w.files.contains_key(joinv(lv, #[trigger] pbv(&p))) by {
+                assert(plan.delete@.contains(p));
+                let j = choose|j: int| 0 <= j < plan.delete@.len() && plan.delete@[j] == p;
+                assert(!w.files.contains_key(joinv(lv, pbv(&plan.delete@[j]))));
+            }
+        }
+        if opts.delete && dir is Push && exists|p: PathBuf| want_delete(sm, dm, ex, p) {
+            let p0 = choose|p: PathBuf| want_delete(sm, dm, ex, p);
+            assert(plan.delete@.contains(p0));
+            let i = rl.cmds.len() - 1;
+            assert(rl.cmds[i] == RemoteCmd::Rm { host: hv, paths: entries(rv, plan.delete@) });
+            assert(rm_of_plan(rl.cmds[i], hv, rv, sm, dm, ex));
         }
         assert forall|i: int| rl0.cmds.len() <= i < rl.cmds.len() implies planned_cmd(#[trigger] rl.cmds[i], hv, rv, sm, dm, ex, opts.delete) by {
             if i < rl2.cmds.len() { assert(rl.cmds[i] == rl2.cmds[i]); }
